@@ -31,8 +31,7 @@ CHECKS = {
         ref="3 C02", technique="Lean 4 proof over a schema regenerated from the source (translator) against a specification table + reference-encoder correspondence",
         note=TB + "the specification table and the reference encoder are hand transliterations of the Conway CDDL (trusted); "
                   "classes with a hand-written to_primitive (addresses, values, outputs, Plutus data, scripts, metadata) are judged "
-                  "by the reference encoder on the implementation, not by the table theorem; recorded defect "
-                  "KF-C02-orderedset-str-dedup."),
+                  "by the reference encoder on the implementation, not by the table theorem."),
     "C03": dict(
         text="Lean theorems: CBOR byte-level round trip with framing for every well-formed item (definite / indefinite arrays, "
              "chunked strings, tags); decode-then-re-encode is the identity on bytes for every typed value of every schema table "
